@@ -122,6 +122,7 @@ class Interp:
         self.memo = {}
         self.site_ids = {}
         self.debug_heads = None
+        self.debug_bb = None
         self.cache = {}
         self.runs_stack = []
         self.roots_runs = []
@@ -426,6 +427,8 @@ class Interp:
             return v.inner if isinstance(v, CursorV) else TopV()
         if k == "cpos":
             return v.pos if isinstance(v, CursorV) else TopV()
+        if k == "sub":
+            return v
         return TopV()
 
     def write_path(self, st, path, val, weak=False, key=None):
@@ -501,6 +504,8 @@ class Interp:
             if isinstance(v, CursorV):
                 return CursorV(v.inner, self.upd(st, v.pos, rest, val, weak, key + ("cpos",)))
             return v
+        if k == "sub":
+            return self.upd(st, v, rest, val, True, key)
         return v
 
     def eval_place(self, fr, st, place):
@@ -533,7 +538,7 @@ class Interp:
                 np_ = []
                 for r, pr in paths:
                     v = self.read_path(st, (r, pr))
-                    if c is not None and isinstance(v, ArrV) and v.elems is not None:
+                    if c is not None and isinstance(v, ArrV) and v.elems is not None and ("sub",) not in pr:
                         np_.append((r, pr + (("i", c),)))
                     else:
                         np_.append((r, pr + (("e",),)))
@@ -542,7 +547,7 @@ class Interp:
                 np_ = []
                 for r, pr in paths:
                     v = self.read_path(st, (r, pr))
-                    if not p[2] and isinstance(v, ArrV) and v.elems is not None:
+                    if not p[2] and isinstance(v, ArrV) and v.elems is not None and ("sub",) not in pr:
                         np_.append((r, pr + (("i", p[1]),)))
                     else:
                         np_.append((r, pr + (("e",),)))
@@ -566,10 +571,15 @@ class Interp:
             pass
         if isinstance(v, IntV) and self.counter_fields and place.proj and place.proj[-1][0] == "field":
             # A-COUNTER: byte counters stay below 2^63
-            pass
+            pr = place.proj[-1]
+            if (pr[4], pr[2]) in self.counter_fields:
+                st.assume(Lin.const((1 << 63) - 1).sub(v.lin))
+                self.assumed[(pr[4], pr[2])] += 1
         return v
 
     def write_place(self, fr, st, place, val, site=None):
+        if isinstance(val, IntV) and val.rng is None and place.ty.is_int():
+            val = IntV(val.lin, val.cond, ty_range(place.ty))
         paths, _ = self.eval_place(fr, st, place)
         weak = len(paths) != 1
         for path in paths:
@@ -585,6 +595,10 @@ class Interp:
             return self.read_place(fr, st, pl, site)
         # constants
         ty = op.ty
+        if op.uneval and op.uneval.get("promoted") is not None:
+            r = self.eval_promoted(fr, st, "%s::promoted[%d]" % (op.uneval["def"], op.uneval["promoted"]))
+            if r is not None:
+                return r
         if ty.is_int():
             v = op.val
             if isinstance(v, bool):
@@ -632,7 +646,35 @@ class Interp:
                 return StructV(ty.name, ())
         return TopV(ty)
 
+    def eval_promoted(self, fr, st, defk):
+        b = self.facts.by_def.get(defk)
+        if b is None:
+            return None
+        pfid = fr.fid + ((defk,),)
+        pfr = Frame(b, fr.subst, pfid, self.cfg(b), {}, fr.depth, (), fr.run, fr.thr)
+        bb = 0
+        for _ in range(len(b.blocks) + 1):
+            blk = b.blocks[bb]
+            for i, s in enumerate(blk.stmts):
+                if s.k == "assign":
+                    v = self.eval_rvalue(pfr, st, s.rv, s.place.ty, (pfid, bb, i))
+                    self.write_place(pfr, st, s.place, v, (bb, i))
+            if blk.term.k == "return":
+                return st.store.get(("L", pfid, 0))
+            if blk.term.k == "goto":
+                bb = blk.term.target
+                continue
+            return None
+        return None
+
     # ------------------------------------------------------------- ints
+    def viv(self, st, v):
+        """Interval of an integer value, clamped to its declared type range."""
+        lo, hi = st.iv(v.lin)
+        if v.rng is not None:
+            return (max(lo, v.rng[0]), min(hi, v.rng[1]))
+        return (lo, hi)
+
     def as_int(self, st, v, ty, key):
         if isinstance(v, IntV):
             return v
@@ -688,12 +730,13 @@ class Interp:
             elif ca is not None:
                 res = lb.scale(ca)
             else:
-                (al, ah), (bl, bh) = st.iv(la), st.iv(lb)
+                (al, ah), (bl, bh) = self.viv(st, a), self.viv(st, b)
                 prods = [x * y for x in (al, ah) for y in (bl, bh)
                          if not (x in (INF, -INF) and y == 0) and not (y in (INF, -INF) and x == 0)]
                 lo, hi = (min(prods), max(prods)) if prods else (-INF, INF)
                 m = st.fresh(key + ("mul",), lo, hi, (-INF, INF))
                 res = Lin.var(m)
+                st.defs[m] = ("mul", la, lb)
                 # lemma: a*b <= a*K <= Y + c  when  b <= K and a >= 0 and  Y - K*a + c >= 0
                 if al >= 0 and bl >= 0:
                     for (x, xo, xoh) in ((la, lb, bh), (lb, la, ah)):
@@ -708,14 +751,14 @@ class Interp:
                                 st.assume(rest.sub(res))
         elif base in ("Div", "Rem"):
             cb = st.const_of(lb)
-            (al, ah) = st.iv(la)
+            (al, ah) = self.viv(st, a)
             if cb is not None and cb > 0 and al >= 0:
                 q = st.fresh(key + ("q",), al // cb, ah // cb if ah != INF else INF, (-INF, INF))
                 r = st.fresh(key + ("r",), 0, min(cb - 1, ah), (-INF, INF))
                 st.assume_eq(la.sub(Lin({q: cb, r: 1}, 0)))
                 res = Lin.var(q) if base == "Div" else Lin.var(r)
             elif base == "Rem" and al >= 0:
-                bl, bh = st.iv(lb)
+                bl, bh = self.viv(st, b)
                 if bl >= 0:
                     r = st.fresh(key + ("r",), 0, max(0, min(ah, bh - 1 if bh != INF else INF)), (-INF, INF))
                     res = Lin.var(r)
@@ -724,7 +767,7 @@ class Interp:
                 else:
                     res = self.fresh_int(st, key, tl, th)
             elif base == "Div" and al >= 0:
-                bl, bh = st.iv(lb)
+                bl, bh = self.viv(st, b)
                 if bl >= 1:
                     q = st.fresh(key + ("q",), al // bh if bh != INF else 0, ah // bl if ah != INF else INF,
                                  (-INF, INF))
@@ -750,21 +793,22 @@ class Interp:
                 if base == "BitOr" and (ca == 1 or cb == 1):
                     return const_int(1)
                 return IntV(self.fresh_int(st, key, 0, 1))
-            return IntV(self.bitop(st, base, la, lb, tl, th, key))
+            return IntV(self.bitop(st, base, a, b, tl, th, key))
         elif base == "Shl":
-            (al, ah) = st.iv(la)
+            (al, ah) = self.viv(st, a)
             kb = st.const_of(lb)
             if kb is not None and 0 <= kb < 128 and al >= 0 and ah * (1 << kb) <= th:
                 res = la.scale(1 << kb)
             else:
-                bl, bh = st.iv(lb)
+                bl, bh = self.viv(st, b)
                 if al >= 0 and 0 <= bl and bh < 128 and ah * (1 << bh) <= th:
                     res = self.fresh_int(st, key, al << bl, ah << bh, (tl, th))
+                    st.defs[next(iter(res.d))] = ("shl", la, lb)
                 else:
                     res = self.fresh_int(st, key, tl, th)
             return IntV(res)
         elif base == "Shr":
-            (al, ah) = st.iv(la)
+            (al, ah) = self.viv(st, a)
             kb = st.const_of(lb)
             if kb is not None and 0 <= kb < 128 and al >= 0:
                 if kb == 0:
@@ -774,9 +818,10 @@ class Interp:
                 st.assume(la.sub(res.scale(1 << kb)))
                 st.assume(res.scale(1 << kb).addc((1 << kb) - 1).sub(la))
             else:
-                bl, bh = st.iv(lb)
+                bl, bh = self.viv(st, b)
                 if al >= 0 and 0 <= bl and bh < 128:
                     res = self.fresh_int(st, key, al >> bh, ah >> bl if ah != INF else INF, (tl, th))
+                    st.defs[next(iter(res.d))] = ("shr", la, lb)
                     st.assume(la.sub(res))
                 else:
                     res = self.fresh_int(st, key, tl, th)
@@ -796,8 +841,9 @@ class Interp:
             return StructV(None, (IntV(res), flag))
         return IntV(self.fit(st, res, ty_a, key + ("wrap",)) if ty_a is not None else res)
 
-    def bitop(self, st, base, la, lb, tl, th, key):
-        (al, ah), (bl, bh) = st.iv(la), st.iv(lb)
+    def bitop(self, st, base, a, b, tl, th, key):
+        la, lb = a.lin, b.lin
+        (al, ah), (bl, bh) = self.viv(st, a), self.viv(st, b)
         if al < 0 or bl < 0:
             return self.fresh_int(st, key, tl, th)
         ca, cb = st.const_of(la), st.const_of(lb)
@@ -814,9 +860,11 @@ class Interp:
                         q = st.fresh(key + ("q",), 0, yh // (xc + 1), (-INF, INF))
                         r = st.fresh(key + ("r",), 0, xc, (-INF, INF))
                         st.assume_eq(y.sub(Lin({q: xc + 1, r: 1}, 0)))
+                        st.defs[r] = ("and", x, y)
                         return Lin.var(r)
             hi = min(ah, bh)
             r = self.fresh_int(st, key, 0, hi, (tl, th))
+            st.defs[next(iter(r.d))] = ("and", la, lb)
             st.assume(la.sub(r))
             st.assume(lb.sub(r))
             return r
@@ -832,6 +880,7 @@ class Interp:
             return self.fresh_int(st, key, tl, th)
         hi = (1 << max(na, nb)) - 1
         r = self.fresh_int(st, key, 0, min(hi, th), (tl, th))
+        st.defs[next(iter(r.d))] = ("or" if base == "BitOr" else "xor", la, lb)
         if base == "BitOr":
             st.assume(r.sub(la))
             st.assume(r.sub(lb))
@@ -873,13 +922,13 @@ class Interp:
             return None
         return None
 
-    def prove_cond(self, st, cond, truth):
+    def prove_cond(self, st, cond, truth, cases=False):
         r = self.cond_lins(cond, truth)
         if r is None:
             return False
         ge, ne = r
         for l in ge:
-            if not st.prove(l):
+            if not (st.prove(l) or (cases and st.prove_cases(l))):
                 return False
         for l in ne:
             if not (st.prove(l.addc(-1)) or st.prove(l.neg().addc(-1))):
@@ -1009,6 +1058,10 @@ class Interp:
             m.atoms.update(out.atoms)
             m.facts |= out.facts
             m.created |= out.created
+            if out.created:
+                for a in out.created:
+                    m.defs.pop(a, None)
+            m.defs.update(out.defs)
             for r, v in out.store.items():
                 if r[0] == "P":
                     cur = self.read_path(m, (r[1], r[2]))
@@ -1069,7 +1122,7 @@ class Interp:
     def _analyze(self, body, subst, fid, st0, args, depth, run):
         self.stats["analyze"] += 1
         cfg = self.cfg(body)
-        fr = Frame(body, subst, fid, cfg, self.unrollable(body), depth, (), run, self.body_thresholds(body))
+        fr = Frame(body, subst, fid, cfg, self.unrollable(body), depth, (), run, self.thresholds)
         st = st0.copy()
         for i, a in enumerate(args):
             st.store[("L", fid, i + 1)] = a
@@ -1097,14 +1150,14 @@ class Interp:
             cur = ins[0]
             nkey = (fid, node)
             for j, s2 in enumerate(ins[1:]):
-                cur = Joiner((nkey, j), cur, s2, False, fr.thr).run()
+                cur = Joiner((nkey, j), cur, s2, False, fr.thr, bb in heads).run()
             visits[node] += 1
             if bb in heads and (k is None or k == "w"):
                 prev = last_in.get(node)
                 if prev is not None:
                     widen = visits[node] > WIDEN_AFTER
                     cur0 = cur
-                    cur = Joiner((nkey, "h"), prev, cur, widen, fr.thr).run()
+                    cur = Joiner((nkey, "h"), prev, cur, widen, fr.thr, True).run()
                     if self.debug_heads:
                         used = set()
                         for v in cur.store.values():
@@ -1201,6 +1254,16 @@ class Interp:
     def exec_block(self, fr, st, bb, k):
         blk = fr.body.blocks[bb]
         fr.ictx = k
+        if self.debug_bb and self.debug_bb[0] in fr.body.name and bb in self.debug_bb[1]:
+            import sys
+            sys.stderr.write("STATE %s bb%d k=%r run=%d\n" % (fr.body.name[-40:], bb, k, fr.run.idx))
+            for r, v in sorted(st.store.items(), key=repr):
+                sys.stderr.write("   %s = %s\n" % (repr(r)[-40:], repr(v)[:300]))
+            used = set()
+            for v in st.store.values():
+                value_atoms(v, used)
+            sys.stderr.write("   atoms %s\n" % ", ".join("a%d:%r" % (a, st.aiv(a)) for a in sorted(used))[:1500])
+            sys.stderr.write("   facts %s\n" % "; ".join(repr(f) for f in st.facts)[:1500])
         for i, s in enumerate(blk.stmts):
             if s.k == "assign":
                 v = self.eval_rvalue(fr, st, s.rv, s.place.ty, (fr.fid, bb, i, k))
@@ -1412,6 +1475,21 @@ class Interp:
                 order.append(tb)
         return [(tb, res[tb]) for tb in order]
 
+    def explain(self, st, v):
+        """Human-readable reason material for an undischarged obligation."""
+        if not isinstance(v, IntV):
+            return "condition value %r" % (v,)
+        s = "cond=%r" % (v.cond,)
+        ats = set(v.lin.d)
+        if v.cond:
+            for x in v.cond[1:]:
+                if isinstance(x, Lin):
+                    ats.update(x.d)
+        s += " atoms={%s}" % ", ".join("a%d:%r" % (a, st.aiv(a)) for a in sorted(ats))
+        rel = [f for f in st.facts if not ats.isdisjoint(f.d.keys())]
+        s += " facts=[%s]" % "; ".join(repr(f) for f in rel[:8])
+        return s[:700]
+
     def exec_assert(self, fr, st, bb, t, k):
         v = self.eval_operand(fr, st, t.cond, (fr.fid, bb, "as", k))
         exp = t.expected
@@ -1427,6 +1505,11 @@ class Interp:
             elif v.cond is not None and v.cond[0] != "discr" and self.prove_cond(st, v.cond, exp):
                 verdict = "safe"
                 how = "relational"
+            elif v.cond is not None and v.cond[0] != "discr" and self.prove_cond(st, v.cond, exp, cases=True):
+                verdict = "safe"
+                how = "cases"
+        if verdict == "unknown":
+            how = self.explain(st, v)
         self.record(fr, bb, "assert", kind, desc, t.span, verdict, how)
         for ob in self.observers:
             ob.on_assert(self, fr, bb, t, v, st, verdict)
